@@ -3829,6 +3829,7 @@ type scopeEntry struct {
 	hadConst bool                // was there a previous l.localConsts[name]?
 	hadVar   bool                // was there a previous l.localIsVar[name]?
 	hadPtr   bool                // was there a previous l.localIsPtr[name]?
+	prevAST  parser.Expr         // previous l.localAbstractASTs[name] (nil if none)
 }
 
 // scopeFrame represents one lexical scope level.
@@ -3864,6 +3865,11 @@ func (l *Lowerer) popScope() {
 		if !e.hadPtr {
 			delete(l.localIsPtr, e.name)
 		}
+		if e.prevAST != nil {
+			l.localAbstractASTs[e.name] = e.prevAST
+		} else {
+			delete(l.localAbstractASTs, e.name)
+		}
 	}
 }
 
@@ -3894,7 +3900,11 @@ func (l *Lowerer) scopeSet(name string) {
 		hadConst: hadConst,
 		hadVar:   hadVar,
 		hadPtr:   hadPtr,
+		prevAST:  l.localAbstractASTs[name],
 	})
+	// The new binding hides an abstract const of an enclosing scope, which
+	// resolveIdentifier would otherwise still find first.
+	delete(l.localAbstractASTs, name)
 }
 
 // lowerBlock converts a block statement to IR statements.
